@@ -32,6 +32,9 @@ def main(argv):
         return 2
     failed = 0
     results = []
+    done = set()
+    if os.environ.get("VERIF_DONE") and os.path.exists(os.environ["VERIF_DONE"]):
+        done = {l.strip() for l in open(os.environ["VERIF_DONE"])}     # "<patch> [<prop>]" lines of an interrupted run
     shard = os.environ.get("VERIF_SHARD")  # "i/n": run every n-th entry starting at i (parallel self-test)
     try:
         for pos, m in enumerate(idx):
@@ -48,6 +51,8 @@ def main(argv):
                 failed += 1
                 continue
             for prop in m["property"].split(","):
+                if f"{m['patch']} [{prop}]" in done:
+                    continue
                 t0 = time.time()
                 env = dict(os.environ, REMOC_SRC=SCRATCH, VERIF_EVIDENCE_DIR=SCRATCH + "-evidence")
                 r = subprocess.run([os.path.join(VERIF, "check"), prop, "quick"], env=env, text=True,
